@@ -1487,7 +1487,21 @@ def rule_findbase_post(ctx):
             if d.attr == "base" and isinstance(d.value, ast.Call) and isinstance(d.value.func, ast.Name):
                 fb = ctx.model.lookup_func(cls.module, d.value.func.id) or fb
     if fb is None:
-        raise AnalysisError("log constructors do not obtain self.base from a package function")
+        # the solver itself is found by its shape (the function whose result is checked against the residual of the defining equation);
+        # a constructor that takes self.base from somewhere else (a cache, a table) does not solve for its own parameters
+        for cand in ctx.model.module("countmin").funcs.values():
+            if cand.is_kernel and len(cand.params) == 3 and any(isinstance(n, ast.Raise) for n in walk_no_nested(cand.node)) \
+                    and cand.rtype is not None and cand.rtype.kind == "float":
+                fb = cand
+        for cls in F.classes(COUNTMIN[1:]):
+            ds = [d for d in F.attr_defs(cls) if d.attr == "base"]
+            ctx.ob("findbase-post", F.ctor(cls), ds[0].stmt if ds else F.ctor(cls).node, "%s: self.base = %s" % (cls.name, unparse(ds[0].value, 60) if ds else "?"),
+                   "the base is solved for this sketch's own (max_count, num_reserved, ceiling)", False,
+                   "self.base is not the result of the base solver applied to this sketch's own parameters (a value looked up elsewhere may "
+                   "belong to another counter width or configuration)")
+        if fb is None:
+            raise AnalysisError("log constructors do not obtain self.base from a package function")
+        return
     ctx.analysed_funcs.add(fb.key)
     from .rules_hll import nf, parse_nf
     # residual function: the helper whose return has the normal form of  base**K - M*base + (M - 1)
